@@ -1228,3 +1228,53 @@ def rule_record_not_released_twice(ctx):
         ctx.holds("DOUBLEREL", key, f.where(), "after the dispatch to the special end-access routine the local pointer is cleared before any release", nontrivial=True)
     ctx.floor("DOUBLEREL", 1, 1, "(dispatches of an access record to its element's end-access routine)")
     return 1
+
+
+class _CountPerId(PathAnalysis):
+    """user: True once the attach count of the instance was raised or set on this path"""
+
+    def __init__(self, prog):
+        super().__init__(prog)
+        self.sites = {}
+
+    def init_user(self, func):
+        return False
+
+    def on_stmt(self, func, bid, idx, stmt, env, user):
+        u = user
+        for x in walk(stmt["e"]):
+            if x[0] == "incdec" and x[1] == "++" and (mem_field(x[3]) or (0, 0))[1] == "nattach":
+                u = True
+            elif x[0] == "asg" and (mem_field(x[2]) or (0, 0))[1] == "nattach":
+                u = True
+            elif x[0] == "call" and x[1] == "HAregister_atom":
+                line = stmt.get("l", 0)
+                self.sites[line] = self.sites.get(line, True) and u
+        return u
+
+
+def rule_one_count_per_id(ctx):
+    """IDCOUNT (C08, C13): every id that Vattach / VSattach hands out is released by one Vdetach / VSdetach, which lowers the instance's
+    attach count; the instance is torn down (and, for a write attachment, written back) when the count reaches 0.  On every
+    path that registers an id (HAregister_atom) the count was therefore raised or set on that same path.  An id handed out
+    without its count makes the *other* handle's detach bring the count to 0: the next attach re-initialises the instance,
+    dropping the `marked` flag and with it every change made through the handle that is still open."""
+    prog = ctx.prog
+    n = 0
+    for fn in ("Vattach", "VSattach"):
+        f = prog.func(fn)
+        if f is None:
+            ctx.unrecognised("IDCOUNT", "IDCOUNT:%s" % fn, "-", "%s not found" % fn)
+            continue
+        a = _CountPerId(prog)
+        a.fails = fail_values(f, prog)
+        a.run(f)
+        for i, (line, ok) in enumerate(sorted(a.sites.items())):
+            n += 1
+            key = "IDCOUNT:%s#%d" % (fn, i + 1)
+            if ok:
+                ctx.holds("IDCOUNT", key, f.where(line), "every path to this id registration has raised or set the attach count", nontrivial=True)
+            else:
+                ctx.violated("IDCOUNT", key, f.where(line), "%s can register an id on a path that did not raise the instance's attach count: detaching another handle then ends the attachment this id still uses" % fn)
+    ctx.floor("IDCOUNT", 3, n, "(id registrations in Vattach / VSattach)")
+    return n
